@@ -19,7 +19,8 @@ LEAF_TYPES = ["str", "int", "bool", "float", "date", "time", "dateTime", "durati
 def leaf_value(rng, t):
     """A canonically spelled value of an inferable type (stable under type inference order)."""
     if t == "str":
-        return rng.choice(["alpha", "two words", "q&a", "é", "a<b", "x-1", "Hello World", "n/a"])
+        # (strings that look like numbers, booleans or dates too: a repeated child may hold "12" next to "A7")
+        return rng.choice(["alpha", "two words", "q&a", "é", "a<b", "x-1", "Hello World", "n/a", "12", "A7", "true", "1.5", "2020-01-01", "7"])
     if t == "int":
         return str(rng.choice([0, 1, -1, 7, 42, 65536, -128, 2**40, 10**20]))
     if t == "bool":
@@ -102,10 +103,10 @@ class HiddenModel:
                 n.nillable = True
             return n
         n.attrs = self.attrs()
-        for _ in range(rng.randrange(1, 5)):
+        for _ in range(rng.randrange(1, 7)):
             cns = ns if rng.random() < 0.75 else rng.choice(self.nss)
             ch = self.node(depth + 1, cns)
-            mn, mx = rng.choice([(1, 1), (1, 1), (0, 1), (0, 3), (1, 3), (2, 2)])
+            mn, mx = rng.choice([(1, 1), (1, 1), (0, 1), (0, 1), (0, 3), (1, 3), (2, 2)])
             if mn == 0 and not self.allow_known_findings:
                 ch.nillable = False  # an absent optional nillable element comes back as nil (same mechanism as C02/optional-nillable-absent-becomes-nil)
             n.children.append((ch, mn, mx))
@@ -174,7 +175,11 @@ class HiddenModel:
         for j, (ch, mn, mx) in enumerate(n.children):
             k = mx if full else rng.randint(mn, mx)
             if n.interleave and j < n.n_interleaved:
-                shared = k if shared is None else shared
+                if shared is None:
+                    # every occurrence shows the interleaving (at least two rounds): an occurrence with a single round
+                    # can become the base of the merged class and hide it (open known finding
+                    # C13/interleaving-lost-when-first-occurrence-has-one-repetition)
+                    shared = max(k, 2) if mx >= 2 and not self.allow_known_findings else k
                 k = shared
             groups.append([self.build(ch, None, full) for _ in range(k)])
         if n.interleave:
@@ -224,6 +229,8 @@ def jleaf(rng, t):
         return v == "true"
     if t == "float":
         return float(v)
+    if t == "str" and (v in ("true", "false") or v.replace(".", "", 1).isdigit()):
+        return "w" + v  # in JSON a number or boolean is spelled as such; a string that only looks like one is not canonical
     return v
 
 
@@ -231,9 +238,12 @@ def regular_xml(rng, salt, n_samples=None):
     m = HiddenModel(rng, salt)
     k = n_samples or rng.randrange(1, 5)
     docs = {}
-    docs["sample0.xml"] = m.xml_document(full=True)  # one sample shows every optional part
-    for i in range(1, k):
-        docs[f"sample{i}.xml"] = m.xml_document(full=False)
+    # one sample shows every optional part - the first or any other one. (Without a complete occurrence the merged field
+    # order can contradict a sample: open known finding C13/merged-field-order-contradicts-an-occurrence.)
+    r = rng.random()
+    full_at = 0 if r < 0.3 else rng.randrange(k)
+    for i in range(k):
+        docs[f"sample{i}.xml"] = m.xml_document(full=(i == full_at))
     return m, docs
 
 
@@ -244,9 +254,9 @@ def regular_json(rng, salt, n_samples=None):
     m.class_names = ClassNames()
     m.root = m.node(0, None, force_container=True)
     k = n_samples or rng.randrange(1, 4)
-    docs = {"sample0.json": json.dumps(m.json_document(full=True)).encode()}
-    for i in range(1, k):
-        docs[f"sample{i}.json"] = json.dumps(m.json_document(full=False)).encode()
+    r = rng.random()
+    full_at = 0 if r < 0.3 else rng.randrange(k)
+    docs = {f"sample{i}.json": json.dumps(m.json_document(full=(i == full_at))).encode() for i in range(k)}
     return m, docs
 
 
